@@ -163,6 +163,9 @@ static Value project(const Db* db, bool grid)
   q["cols"] = qc;
   q["ncol"] = Value(ncol);
   q["nact"] = Value(db->getSampleNumber(true));
+  Value act = Value::array();
+  for (int e = 0; e < nech; e++) act.push(Value(db->isActive(e) ? 1 : 0));
+  q["active"] = act;   // per-sample answer, to be consistent with the reported count
   Value an = Value::array();
   for (auto& nm : db->getAllNames()) an.push(chars(nm));
   q["allNames"] = an;
@@ -228,7 +231,7 @@ static Db* apply(const Value& c, Db* db)
   else if (op == "addSamples") db->addSamples(c.at("n").i(), c.at("val").i());
   else if (op == "deleteSample") db->deleteSample(c.at("iech").i());
   else if (op == "setArray") db->setArray(c.at("iech").i(), c.at("uid").i(), c.at("val").i());
-  else if (op == "setValueByColIdx") db->setValueByColIdx(c.at("iech").i(), c.at("col").i(), c.at("val").i());
+  else if (op == "setValueByColIdx") db->setValueByColIdx(c.at("iech").i(), c.at("col").i(), c.at("val").i() == -999 ? TEST : (double)c.at("val").i());   // -999 = undefined value
   else if (op == "setValue") db->setValue(unchars(c.at("name")), c.at("iech").i(), c.at("val").i());
   else if (op == "setLocVariable") db->setLocVariable(eloc(c.at("t").s()), c.at("iech").i(), c.at("r").i(), c.at("val").i());
   else if (op == "setColumnByUID")
